@@ -1,4 +1,4 @@
-"""C31 - loop transformations (unroll, fusion, fission, interchange, split/block) preserve behaviour where they apply."""
+"""C31 - loop transformations (unroll, fusion, fission, interchange) preserve behaviour where they apply."""
 import copy
 import re
 
@@ -10,16 +10,14 @@ from ..fprog.model import var, lit
 ID = 'C31'
 LEVEL = 'exploration'
 TECHNIQUE = ('differential execution (gfortran) of generated kernels with pragma-marked loop nests whose legality is known by '
-             'construction vs the same kernels after do_loop_unroll/fusion/fission/interchange, split_loop, block_loop_arrays; '
+             'construction vs the same kernels after do_loop_unroll/fusion/fission/interchange; '
              'failures reduced to necessary features by model-level ablation')
-RULE = ('one transformation kind per case (unroll, fusion, fission, interchange, split, block); the kernel body = generated filler '
+RULE = ('one transformation kind per case (explored: unroll, fusion, fission, interchange - the kinds the property names; the generator also knows split, block, which are not run); the kernel body = generated filler '
         'statements + 1-2 marked regions built under the legality rules in fprog/gen_loops.py (unroll: literal bounds/steps incl. '
         'negative steps, off-grid stops, empty ranges, nests 1-3, depth(n), counters in inner bounds, neighbouring inner loops; '
         'fusion: groups of 2-3 loops, equal/sub-ranges, range(..), collapse(2), different loop variables, insert-loc, statements '
         'between the loops; fission: 1-2 fission points, private temporaries crossing them (auto/explicit promotion), collapse(2), '
-        'pragma inside IF; interchange: rectangular and triangular (project_bounds) perfect nests; split_loop: any literal range, '
-        'block sizes dividing / not dividing / exceeding the trip count; block_loop_arrays: do i=1,hi over dummy arrays subscripted '
-        'by i). oracle: stdout(original+driver) == stdout(transformed+driver) on 4 input vectors. non-trivial = transformation '
+        'pragma inside IF; interchange: rectangular and triangular (project_bounds) perfect nests). oracle: stdout(original+driver) == stdout(transformed+driver) on 4 input vectors. non-trivial = transformation '
         'changed the IR dump AND a marked region executes (>=1 iteration, top level of the kernel) AND outputs differ across the '
         'input vectors; distinct by hash of the case')
 ASSUMPTIONS = ['gfortran 12 -O0 with -fcheck=bounds,do -ftrapv -ffpe-trap is the reference semantics',
@@ -31,6 +29,7 @@ BUDGET = {'quick': 80, 'thorough': 1500}
 
 # generator trigger -> signature of the listed known finding it provokes. A trigger is generated only while its finding is
 # NOT listed in known_findings.d/C31.txt (so a fixed + delisted defect is searched for again automatically).
+STATED_KINDS = ('unroll', 'fusion', 'fission', 'interchange')
 TRIGGER_SIGS = {
     'unroll-exit': 'C31:unroll:exit-or-cycle:candidate-does-not-compile:EXIT-or-CYCLE-outside-loop',
     'unroll-label': 'C31:unroll:do-label:candidate-does-not-compile:Duplicate-statement-label-N-at-(N)-and-(N)',
@@ -336,7 +335,7 @@ NEUTRALISERS = [
 ]
 
 
-PRIMARY = {'exit-or-cycle', 'do-label', 'diffvar', 'idcase-nonlower', 'local-array', 'lo-not-1', 'same-array-distinct-subscripts'}
+PRIMARY = {'exit-or-cycle', 'do-label', 'do-named', 'diffvar', 'idcase-nonlower', 'local-array', 'lo-not-1', 'same-array-distinct-subscripts'}
 
 
 def neutralise(case, ri, tag):
@@ -538,8 +537,11 @@ def check_case(case, ctx):
 
 def run_shard(ctx):
     flags = {t: (sig not in ctx.known_sigs) for t, sig in TRIGGER_SIGS.items()}
-    k = ctx.shard % len(gen_loops.KINDS)
-    kinds = gen_loops.KINDS[k:] + gen_loops.KINDS[:k]      # same draws -> different kinds on different shards
+    # only the transformations the property names; split_loop/block_loop_arrays (supported by the generator and by
+    # apply_transformation) are not part of the statement of C31 and are therefore not explored or judged here
+    stated = [kd for kd in gen_loops.KINDS if kd in STATED_KINDS]
+    k = ctx.shard % len(stated)
+    kinds = stated[k:] + stated[:k]      # same draws -> different kinds on different shards
     ctx.given(gen_loops.cases(kinds=kinds, flags=flags), check_case, ctx.scale(240, 6000))
 
 
